@@ -145,7 +145,17 @@ def ev_call(ex, n, st, spec, b):
             return ex.cx.spec[name](*[E(a) for a in n.args])
         if name in st.env:
             fv = st.env[name]
-            return call_value(ex, fv, [E(a) for a in n.args], {k.arg: E(k.value) for k in n.keywords}, st, n, spec)
+            kws = {}
+            for k in n.keywords:
+                if k.arg is None:
+                    v = E(k.value)
+                    if isinstance(v, ObjV) and v.cls in ("__kwargs__", "__kwdict__"):
+                        kws.update(v.fields)
+                    else:
+                        raise Unsupported("** argument")
+                else:
+                    kws[k.arg] = E(k.value)
+            return call_value(ex, fv, [E(a) for a in n.args], kws, st, n, spec)
     if isinstance(f, ast.Name) and f.id == "sum" and n.args and isinstance(n.args[0], (ast.GeneratorExp, ast.ListComp)):
         n.args[0]._sum_context = True
     args = []
@@ -325,6 +335,8 @@ def _call_method(ex, base, attr, args, kwargs, st, node, spec, after=None):
                 return apply_contract(ex, c, None, args, kwargs, st, node, spec)[0], None
             return inline_function(ex, fnode, None, args, kwargs, st, node, spec, name=f"{mcls}.{attr}", cls=mcls)[0], None
         if "classmethod" in decos:
+            if c is not None:
+                return apply_contract(ex, c, None, args, kwargs, st, node, spec)[0], None
             return inline_function(ex, fnode, base, args, kwargs, st, node, spec, name=f"{mcls}.{attr}", cls=mcls)[0], None
         # unbound: first argument is self
         res, ns = _call_method(ex, args[0], attr, args[1:], kwargs, st, node, spec)
